@@ -2,7 +2,8 @@
 //
 // Bounded-exhaustive exploration of memory-access programs on the real engines: every load/store/SIMD/atomic/bulk
 // opcode x static offset x dynamic base x base form x placement (relative to earlier checks, calls, memory.grow,
-// control-flow merges) x memory size x memory kind x engine. Oracle = reference model (in bounds iff
+// control-flow merges) x memory size x memory kind x engine (+ two configuration slices: capacity/maximum, and import
+// links whose declared memory type differs from the defined one). Oracle = reference model (in bounds iff
 // base+offset+width <= size in 64-bit arithmetic; pattern-filled memory; exact result, exact bytes written).
 // Sandbox guard: memories live in mmap reservations fenced by 4 GiB PROT_NONE on both sides (alloc.go); every item
 // runs in a supervised child so that SIGSEGV/SIGBUS is attributed to the case in flight.
@@ -143,6 +144,27 @@ func buildPlan(quick bool) []item {
 			}
 		}
 	}
+	// link slice: the memory type the importer DECLARES differs from what the exporter DEFINES (see links in gen.go):
+	// spec-compatible widenings, a memory that has grown before the import, and every single-attribute
+	// incompatibility (shared flag both ways, maximum, minimum). A rejected instantiation is a legitimate outcome
+	// (nothing runs); an accepted one gets the call/grow placements on a memory that moves on every grow (unshared
+	// definitions) and is decided by the reference model of the DEFINED memory.
+	linkPages := []uint32{1}
+	if !quick {
+		linkPages = []uint32{1, 2}
+	}
+	for _, name := range capOps {
+		for _, l := range links {
+			for _, pg := range linkPages {
+				for _, engine := range []string{"compiler", "interpreter"} {
+					b := batch{Engine: engine, Kind: l.DefKind, Pages: pg, Op: name, Offs: capOffs, Level: 3, DeclMax: l.DefMax, Link: l.Name}
+					b.FewConst = quick
+					b.Prune = quick && name != "i32.load" && name != "i64.store"
+					items = append(items, item{Batch: b})
+				}
+			}
+		}
+	}
 	return items
 }
 
@@ -173,6 +195,10 @@ next:
 				have = it.Batch.CapMax
 			case "declmax":
 				have = strconv.FormatBool(it.Batch.DeclMax)
+			case "link":
+				have = it.Batch.Link
+			case "slice":
+				have = map[bool]string{true: "link", false: "main"}[it.Batch.Link != ""]
 			}
 			if have != v {
 				continue next
@@ -307,7 +333,10 @@ func loadFindings() []fw.Finding {
 
 // runSingle executes exactly one case in a fresh supervised child and reports whether it fails.
 func (a *agg) runSingle(c caseDesc, tag string) (failed bool, what string) {
-	b := batch{Engine: c.Engine, Kind: memKindByName(c.Mem), Pages: c.Pages, Op: c.Op, Offs: []uint64{c.Off}, Level: 0, Only: &c, Move: c.Move, DeclMax: c.DeclMax, CapMax: c.CapMax}
+	b := batch{Engine: c.Engine, Kind: memKindByName(c.Mem), Pages: c.Pages, Op: c.Op, Offs: []uint64{c.Off}, Level: 0, Only: &c, Move: c.Move, DeclMax: c.DeclMax, CapMax: c.CapMax, Link: c.Link}
+	if c.Link != "" {
+		b.Level = 3 // the link slice is generated at level 3
+	}
 	if c.Pages != 0 && placementByName(c.Placement) != nil && placementByName(c.Placement).Touch0 {
 		b.Level = 3 // the zero-length-touch placements are only generated there (and for empty memories)
 	}
@@ -375,6 +404,9 @@ func (a *agg) handle(pool string, items []item, workers int, i int, res string, 
 	}
 	if b.CapMax != "" {
 		key += "/capacity-from-max:" + b.CapMax
+	}
+	if b.Link != "" {
+		key += "/link:" + b.Link
 	}
 	if crash != nil {
 		prog := openProgress(filepath.Join(a.dir, fmt.Sprintf("w-%s-%d", pool, i%workers)), false)
@@ -555,7 +587,7 @@ func main() {
 	a.confirm()
 
 	bounds := map[string]any{
-		"operations": len(allOps), "static_offsets": offsetAlphabet, "placements": len(placements), "base_forms": int(nForms),
+		"operations": len(allOps), "static_offsets": offsetAlphabet, "placements": len(placements), "base_forms": int(nForms), "import_links": len(links),
 		"items": a.items, "functions_compiled": a.funcs, "cases_per_engine_memkind_pages": a.perConfig,
 	}
 	var notes []string
